@@ -345,6 +345,52 @@ def LogicallyEqual (m : Module) (wa wb : SView) : Prop :=
     ∃ c, RFact m wa (.pres [f.name] c) ∧ RFact m wb (.pres [f.name] c) ∧
       (c = true → ∃ v, RFact m wa (.val [f.name] v) ∧ RFact m wb (.val [f.name] v))
 
+/-- `w'` is the view the reference assigns to the field `x` of structure / `bits` type of `w`
+(the view whose facts rule `sub` lifts): inner structure, argument values, sub-window. -/
+inductive SubViewR (m : Module) (w : SView) (x : String) : SView → Prop
+  | mk {f : Field} {start size : Expr} {name : String} {bits : Nat}
+      {args : Exprs} {bo : ByteOrder} {sd' : StructDef} {s z : Int} {vs : List Val} (ρ : Env)
+      (hf : w.sd.field x = some f)
+      (hk : f.kind = .phys start size (.struct name bits args) bo)
+      (hfind : m.find name = some sd')
+      (hr : ∀ p v, ρ.read p = some v → RFact m w (.val p v))
+      (hh : ∀ p c, ρ.has p = some c → RFact m w (.pres p c))
+      (hp : ∀ n v, ρ.param n = some v → w.param n = some v)
+      (hl : ρ.lv = none)
+      (hs : evalR ρ start = some (.int s)) (hz : evalR ρ size = some (.int z))
+      (hs0 : 0 ≤ s) (hz0 : 0 ≤ z)
+      (hargs : evalArgsR ρ args = some vs) :
+      SubViewR m w x { sd := sd', params := some vs,
+                       st := window w.st (sd'.unit != 8) bo s.toNat z.toNat bits }
+
+/-- the two views have the same parameter values (a structure without parameters trivially) -/
+def ParamsAgree (wa wb : SView) : Prop := wa.sd.params = [] ∨ wa.params = wb.params
+
+/-- **Logical equality, recursively** (C20's statement), to nesting depth `k`: two views of the
+same structure type agree on which physical fields are present, every present scalar field reads
+equal, and every present field of structure / `bits` type is — as the views R assigns to it on
+both sides — logically equal to depth `k - 1`.  Everything is stated over R-facts; bytes / bits no
+field covers, virtual fields and aliases play no role.  (Structure types do not nest recursively
+in Emboss, so a depth at least the nesting depth of the type is "logically equal".) -/
+def LogEq (m : Module) : Nat → SView → SView → Prop
+  | 0, _, _ => False
+  | k + 1, wa, wb =>
+    ParamsAgree wa wb ∧
+    ∀ f ∈ wa.sd.fields, isPhys f = true →
+      ∃ c, RFact m wa (.pres [f.name] c) ∧ RFact m wb (.pres [f.name] c) ∧
+        (c = true →
+          match f.kind with
+          | .phys _ _ (.struct _ _ _) _ =>
+            ∃ wa' wb', SubViewR m wa f.name wa' ∧ SubViewR m wb f.name wb' ∧ LogEq m k wa' wb'
+          | _ => ∃ v, RFact m wa (.val [f.name] v) ∧ RFact m wb (.val [f.name] v))
+
+/-- no physical field is an array (fragment of `C20_equals_iff_logical_nested_partial`) -/
+def noArrayFields (sd : StructDef) : Bool :=
+  sd.fields.all (fun f =>
+    match f.kind with
+    | .phys _ _ (.array _ _) _ => false
+    | _ => true)
+
 /-- field names are unique (the front end rejects duplicate names) -/
 def namesUnique (sd : StructDef) : Prop := ∀ f ∈ sd.fields, sd.field f.name = some f
 
